@@ -133,7 +133,12 @@ class BaseProp:
                                        self.classify_diff(c, str(d))))
         for c in cases:
             if c["id"] in impl:
-                for msg in self.oracle(c, impl[c["id"]]):
+                try:
+                    msgs = self.oracle(c, impl[c["id"]])
+                except Exception as e:      # an answer so malformed that the oracle cannot even read it
+                    msgs = ["the implementation's answer does not have the shape the property requires "
+                            "(%s: %s while evaluating the property on it)" % (type(e).__name__, e)]
+                for msg in msgs:
                     res["failing"].append((c, "property oracle: " + msg, "counterexample"))
         return res
 
@@ -538,6 +543,13 @@ class C09Prop(HistProp):
                 if deg.get(x) != exp:
                     msgs.append("degree(%d) = %s, edge multiset gives %d" % (x, deg.get(x), exp))
                     break
+        for nm_, mp_ in (("get_degree_for_all_nodes", deg), ("get_in_degree_for_all_nodes", indeg),
+                         ("get_out_degree_for_all_nodes", outdeg), ("get_weighted_degree_for_all_nodes", wdeg),
+                         ("get_weighted_in_degree_for_all_nodes", windeg),
+                         ("get_weighted_out_degree_for_all_nodes", woutdeg)):
+            if mp_ is not None and set(mp_.keys()) != set(nodes):
+                msgs.append("%s has entries for %s, the nodes are %s" % (nm_, sorted(mp_.keys()), sorted(nodes)))
+                return msgs[:3]
         if directed and indeg is not None and outdeg is not None and deg is not None:
             if sum(indeg.values()) != m or sum(outdeg.values()) != m:
                 msgs.append("in/out degrees sum to %d/%d, m = %d" % (sum(indeg.values()), sum(outdeg.values()), m))
